@@ -10,6 +10,7 @@ import KrillModel.Ca.RoaLemmas
 import KrillModel.Ca.ObjLemmas
 import KrillModel.Ca.ObjLemmasSync
 import KrillModel.Sys.RpLemmas
+import KrillModel.Ca.ClassLemmas
 namespace KM.Props.C01
 open KM.Ca.Pub KM.Sys.Rp
 
@@ -102,50 +103,84 @@ theorem sync_repo_idempotent (server : List (Uri × Nat)) (hn : (keys server).No
   obtain ⟨h1, h2⟩ := sync_repo_exact server hn o
   rw [(sync_repo_exact _ h1 o).2 u, h2 u]
 
+/-! ### The key set mirrors the class (`objects_mirror`, ROAs, one key) -/
+
+/-- Along every history of a resource class (re-derivations for any routes / certificate /
+thresholds, renewals, republish runs) starting from a fresh class, the key object set publishes
+exactly the ROA objects the class believes it issued (by name, serial, expiry, hash), the ROA
+state is well-formed and the key set is well-formed (manifest lists exactly, CRL lists the
+revocations, numbers agree). -/
+theorem objects_mirror (nm : Naming) (hnm : nm.Ok) (t : Timing) (k : NewKey) (ops : List ClassOp)
+    (hops : ∀ op ∈ ops, op.ok) :
+    let c := (ClassState.init k t).run nm t ops
+    c.roas.WF ∧ (keys c.set.published).Nodup ∧ (∀ e, e ∈ c.set.published ↔ e ∈ roaView nm c.roas) ∧
+    GoodSet c.set := by
+  intro c
+  obtain ⟨h1, ⟨h2, h3⟩, h4⟩ := classInv_run nm hnm t ops (ClassState.init k t) hops (classInv_init nm k t)
+  exact ⟨h1, h2, h3, h4⟩
+
+/-- Non-vacuity: names that identify objects exist. -/
+example : exampleNaming.Ok := exampleNaming_ok
+
 /-! ### One CA level, composed
 
 Full statement (DESIGN `quiescent_valid`): for every history of API operations over a hierarchy of
 CAs, once the tasks are drained, `TreeValid` holds from the trust anchor and the validated
 payloads are exactly `⋃ configured(ca) ∩ covered-by-current-cert(ca)`.
 
-Proved here: one CA level, one key.  After *any* re-derivation of the ROAs (any reachable state,
-routes, thresholds) under the CA's certificate, for a key set that mirrors those objects and is
-well-formed (which `manifest_lists_exactly_always` / C03 `crl_lists_revocations_always` give along
-every history) and is inside its window, and after a repository synchronisation from ANY previous
-server content, a relying party that decodes the files faithfully accepts the publication point
-and extracts exactly the configured-and-covered payloads.
+Proved here: one CA level, one key, ROAs.  After *any* history of the class (re-derivations,
+renewals, republish runs from a fresh class) ending – possibly followed by renewals/republish runs
+– with a re-derivation for `routes` under the CA's certificate, and after a repository
+synchronisation from ANY previous server content, a relying party that decodes the files
+faithfully, inside the manifest's window, with no current object expired or revoked, accepts the
+publication point and extracts exactly the configured-and-covered payloads.
 
-Missing for the full statement: `Mirror` (`objects_mirror`) and the "unrevoked/unexpired" facts as
-invariants over histories (checked dynamically: oracle `ObjectsMirror`, `RpTreeValid`), child
-certificates and the recursion over the hierarchy (`TreeValid` with fuel is defined; checked
-dynamically by the relying-party walk), ASPA/router objects inside the composition, key rolls
-(two sets per class). -/
-theorem quiescent_valid_partial (r₀ : Roas) (hr : r₀.WF) (routes : List Payload) (hroutes : routes.Nodup)
-    (deagg agg : Nat) (mintS : Payload → ObjMeta) (mintA : AggKey → ObjMeta)
-    (ca : Cert) (s : KeyObjectSet) (rcn : Nat) (server : List (Uri × Nat)) (hsrv : (keys server).Nodup)
+Missing for the full statement: "no current object is on the CRL / expired" as an invariant over
+histories (needs freshness of serial numbers; checked dynamically by the oracle `RpTreeValid`),
+child certificates and the recursion over the hierarchy (`TreeValid` with fuel is defined and
+judged dynamically through the relying-party walk), ASPA and router objects inside the
+composition (their exactness is proved above), key rolls (two key sets per class; C04). -/
+theorem quiescent_valid_partial (nm : Naming) (hnm : nm.Ok) (t : Timing) (k : NewKey)
+    (ops₁ ops₂ : List ClassOp) (hops₁ : ∀ op ∈ ops₁, op.ok) (hnd : ∀ op ∈ ops₂, op.isDerive = false)
+    (routes : List Payload) (hroutes : routes.Nodup) (deagg agg : Nat)
+    (mintS : Payload → ObjMeta) (mintA : AggKey → ObjMeta) (i : IssueIn)
+    (ca : Cert) (rcn : Nat) (server : List (Uri × Nat)) (hsrv : (keys server).Nodup)
     (cat : Catalog) (now : Nat) :
-    let r := r₀.apply (r₀.createUpdates ca.resources.coversPfx routes deagg agg mintS mintA)
-    let files := filesAfterSync server rcn s
-    Decodes cat ca.subject r s → GoodSet s → Mirror r s →
-    s.mftName = ca.mftName → s.crlName = ca.crlName → ca.mftName ≠ ca.crlName →
-    (keys s.published).Nodup → ca.mftName ∉ keys s.published → ca.crlName ∉ keys s.published →
-    (s.revision.thisUpdate ≤ now ∧ now < s.revision.nextUpdate) →
-    (∀ i ∈ infos r, now < i.obj.expires) → (∀ i ∈ infos r, i.obj.serial ∉ s.crl.revoked) →
+    let c := (((ClassState.init k t).run nm t ops₁).step nm t
+      (.derive ca.resources.coversPfx routes deagg agg mintS mintA i)).run nm t ops₂
+    let files := filesAfterSync server rcn c.set
+    Decodes cat ca.subject c.roas c.set →
+    c.set.mftName = ca.mftName → c.set.crlName = ca.crlName → ca.mftName ≠ ca.crlName →
+    ca.mftName ∉ keys c.set.published → ca.crlName ∉ keys c.set.published →
+    (c.set.revision.thisUpdate ≤ now ∧ now < c.set.revision.nextUpdate) →
+    (∀ x ∈ infos c.roas, now < x.obj.expires) → (∀ x ∈ infos c.roas, x.obj.serial ∉ c.set.crl.revoked) →
     PointValid cat files ca now = true ∧
     PayloadsExact (pointVrps cat files ca) (routes.filter ca.resources.coversPfx) = true := by
-  intro r files hdec hgood hmir hm hc hne hnd hmf hcf hwin hexp hrev
-  obtain ⟨e1, _, e3⟩ := createUpdates_exact r₀ hr ca.resources.coversPfx routes hroutes deagg agg mintS mintA
-  obtain ⟨f1, f2⟩ := filesAfterSync_spec server hsrv rcn s hnd (by rw [hm, hc]; exact hne)
+  intro c files hdec hm hc hne hmf hcf hwin hexp hrev
+  -- the invariant along the whole history
+  have inv1 := classInv_run nm hnm t ops₁ (ClassState.init k t) hops₁ (classInv_init nm k t)
+  have inv2 := classInv_step nm hnm t _ (.derive ca.resources.coversPfx routes deagg agg mintS mintA i) hroutes inv1
+  have hops₂ : ∀ op ∈ ops₂, op.ok := by
+    intro op ho
+    have := hnd op ho
+    cases op <;> simp [ClassOp.isDerive, ClassOp.ok] at this ⊢
+  have inv3 : ClassInv nm c := classInv_run nm hnm t ops₂ _ hops₂ inv2
+  -- payloads: fixed by the re-derivation, kept by what follows
+  have hpay : ∀ p, p ∈ c.roas.payloads ↔ (p ∈ routes ∧ ca.resources.coversPfx p = true) := by
+    intro p
+    rw [payloads_run_nonDerive nm hnm t ops₂ _ inv2 hnd p]
+    exact (createUpdates_exact _ inv1.1 ca.resources.coversPfx routes hroutes deagg agg mintS mintA).1 p
+  obtain ⟨f1, f2⟩ := filesAfterSync_spec server hsrv rcn c.set inv3.2.1.1 (by rw [hm, hc]; exact hne)
     (by rw [hm]; exact hmf) (by rw [hc]; exact hcf)
-  have ready : Ready ca r s files now :=
-    { wf := e3, good := hgood, mirror := hmir, mftName := hm, crlName := hc, namesDiffer := hne,
+  have ready : Ready nm ca c.roas c.set files now :=
+    { wf := inv3.1, good := inv3.2.2, mirror := inv3.2.1.2, mftName := hm, crlName := hc, namesDiffer := hne,
       mftFresh := hmf, crlFresh := hcf, filesNodup := f1, files := f2, window := hwin,
-      unexpired := hexp, unrevoked := hrev, covered := fun p hp => ((e1 p).mp hp).2 }
-  refine ⟨point_valid cat ca r s files now hdec ready, ?_⟩
+      unexpired := hexp, unrevoked := hrev, covered := fun p hp => ((hpay p).mp hp).2 }
+  refine ⟨point_valid nm cat ca c.roas c.set files now hdec ready, ?_⟩
   simp only [PayloadsExact]
   rw [sameMembers_iff]
   intro p
-  rw [point_vrps cat ca r s files now hdec ready p, e1 p, List.mem_filter]
+  rw [point_vrps nm cat ca c.roas c.set files now hdec ready p, hpay p, List.mem_filter]
 
 /-- Non-vacuity of the composition: a concrete state (one simple ROA, fresh manifest) meets all
 hypotheses and the validator accepts it. -/
